@@ -12,6 +12,7 @@ of `Louvain`.  Then
   spec line     -> the Lean specification (SkNet/Spec/Embedding.lean: matrices written entry by entry from the documented
                    formulas) is evaluated on the implementation's public outputs only.
 """
+import copy
 import math
 import struct
 import warnings
@@ -453,6 +454,25 @@ class Fit:
         self.builder = builder
 
 
+def reuse_begin(reuse, make):
+    """One estimator object fitted several times (`reuse` is the session of a refit sequence): returns the live estimator
+    (created by `make()` on the first fit) and the descriptions of the matrices it was fitted on before."""
+    if reuse is None:
+        return make(), []
+    if reuse.get('est') is None:
+        reuse['est'] = make()
+        reuse['history'] = []
+    return reuse['est'], list(reuse['history'])
+
+
+def reuse_end(reuse, live, a):
+    """Record the fit and hand back a snapshot of the fitted state: the cases are built after the whole batch ran, when
+    the live object has been refitted."""
+    if reuse is not None:
+        reuse['history'].append(mat_desc(a))
+    return copy.copy(live)
+
+
 def mat_desc(m):
     m = sparse.csr_matrix(m)
     return {'shape': list(m.shape), 'indptr': m.indptr.tolist(), 'indices': m.indices.tolist(),
@@ -514,7 +534,7 @@ def spectral_oracle(adj, reg, rw, nc):
             'count': count}
 
 
-def fit_spectral(ctx, a, nc, dec, reg, normalized, fb=False, variant=None):
+def fit_spectral(ctx, a, nc, dec, reg, normalized, fb=False, variant=None, reuse=None):
     from sknetwork.embedding import Spectral
     patch()
     a = sparse.csr_matrix(a)
@@ -524,10 +544,10 @@ def fit_spectral(ctx, a, nc, dec, reg, normalized, fb=False, variant=None):
     rw = dec == 'rw'
     params = {'n_components': nc, 'decomposition': dec, 'regularization': reg, 'normalized': normalized,
               'force_bipartite': fb}
-    desc = {'estimator': 'Spectral', 'matrix': mat_desc(a), 'params': params, 'variant': variant}
-    sig0 = {'entry': 'Spectral.fit', 'decomposition': dec, 'normalized': normalized}
+    est, history = reuse_begin(reuse, lambda: Spectral(nc, decomposition=dec, regularization=reg, normalized=normalized))
+    desc = {'estimator': 'Spectral', 'matrix': mat_desc(a), 'params': params, 'variant': variant, 'history': history}
+    sig0 = {'entry': 'Spectral.fit', 'decomposition': dec, 'normalized': normalized, 'refit': bool(history)}
     CAP['eig'] = None
-    est = Spectral(nc, decomposition=dec, regularization=reg, normalized=normalized)
 
     def f():
         with warnings.catch_warnings():
@@ -536,8 +556,9 @@ def fit_spectral(ctx, a, nc, dec, reg, normalized, fb=False, variant=None):
             est.fit(a_in, force_bipartite=fb)
         return 'ok'
     status = run_est(ctx, f)
+    est = reuse_end(reuse, est, a)
     gkey = ('Spectral', a.shape, a.indptr.tobytes(), a.indices.tobytes(), a.data.tobytes(), nc, dec, reg, normalized, fb,
-            repr(variant))
+            repr(variant), repr(history))
     if status.startswith('err') and status.split(' ')[1] in SOLVER_ERRORS:
         blk = block(dense) if (fb or nr != ncol or not np.array_equal(dense, dense.T)) else dense
         if oracle_reg(blk, reg) == 0 and not np.any(blk - np.diag(np.diag(blk))):
@@ -660,7 +681,7 @@ def fit_operators(ctx, a, reg):
 
 # ---------------------------------------------------------------- GSVD / SVD / PCA
 def fit_svd(ctx, kind, a, nc, reg=None, fr=0.5, fc=0.5, fs=0., normalized=True, solver='dense', predict_rows=(),
-            variant=None):
+            variant=None, reuse=None):
     """solver: 'dense' (exact dense SVD object, scrambled order), 'lanczos' (recording LanczosSVD object),
     'string' (the default path: solver='lanczos' given by name, the estimator creates its own LanczosSVD)."""
     from sknetwork.embedding import GSVD, SVD, PCA
@@ -676,20 +697,26 @@ def fit_svd(ctx, kind, a, nc, reg=None, fr=0.5, fc=0.5, fs=0., normalized=True, 
         fr, fc, fs, reg = 0., 0., 0., None
     params = {'n_components': nc, 'regularization': reg, 'factor_row': fr, 'factor_col': fc, 'factor_singular': fs,
               'normalized': normalized, 'solver': solver, 'predict_rows': list(predict_rows)}
-    desc = {'estimator': kind, 'matrix': mat_desc(a), 'params': params, 'variant': variant}
-    sig0 = {'entry': kind + '.fit', 'normalized': normalized}
-    if solver == 'dense':
-        sol = DenseSolver(ctx.rng)
-    elif solver == 'lanczos':
-        sol = CapLanczos()
-    else:
-        sol = 'lanczos'
-    if kind == 'GSVD':
-        est = GSVD(nc, regularization=reg, factor_row=fr, factor_col=fc, factor_singular=fs, normalized=normalized, solver=sol)
-    elif kind == 'SVD':
-        est = SVD(nc, regularization=reg, factor_singular=fs, normalized=normalized, solver=sol)
-    else:
-        est = PCA(nc, normalized=normalized, solver=sol)
+    def make():
+        if solver == 'dense':
+            sol_ = DenseSolver(ctx.rng)
+        elif solver == 'lanczos':
+            sol_ = CapLanczos()
+        else:
+            sol_ = 'lanczos'
+        if kind == 'GSVD':
+            e_ = GSVD(nc, regularization=reg, factor_row=fr, factor_col=fc, factor_singular=fs, normalized=normalized,
+                      solver=sol_)
+        elif kind == 'SVD':
+            e_ = SVD(nc, regularization=reg, factor_singular=fs, normalized=normalized, solver=sol_)
+        else:
+            e_ = PCA(nc, normalized=normalized, solver=sol_)
+        e_._c09_sol = sol_
+        return e_
+    est, history = reuse_begin(reuse, make)
+    sol = est._c09_sol
+    desc = {'estimator': kind, 'matrix': mat_desc(a), 'params': params, 'variant': variant, 'history': history}
+    sig0 = {'entry': kind + '.fit', 'normalized': normalized, 'refit': bool(history)}
     CAP['svds'] = None
     CAP['svds_call'] = None
     CAP['lanczos_fit'] = None
@@ -703,8 +730,9 @@ def fit_svd(ctx, kind, a, nc, reg=None, fr=0.5, fc=0.5, fs=0., normalized=True, 
         ctx.count('outside-quantifier:negative-regularised-weight')
         return None
     status = run_est(ctx, f)
+    est = reuse_end(reuse, est, a)
     gkey = (kind, a.shape, a.indptr.tobytes(), a.indices.tobytes(), a.data.tobytes(), nc, reg, fr, fc, fs, normalized, solver,
-            repr(variant))
+            repr(variant), repr(history))
     regtok = enc_optf(reg)
     if kind == 'PCA':
         head = 'c09.pca %d %d %s %d %d %s' % (nr, ncol, enc_mat(dense), a.nnz, nc, enc_bool(normalized))
@@ -917,7 +945,7 @@ def predict_line(kind, est, reg, fr, fc, fs, normalized, ncol, x):
 
 
 # ---------------------------------------------------------------- RandomProjection
-def fit_rp(ctx, a, nc, alpha, n_iter, rw, reg, normalized, seed, fb=False, variant=None):
+def fit_rp(ctx, a, nc, alpha, n_iter, rw, reg, normalized, seed, fb=False, variant=None, reuse=None):
     from sknetwork.embedding import RandomProjection
     patch()
     a = sparse.csr_matrix(a)
@@ -926,10 +954,10 @@ def fit_rp(ctx, a, nc, alpha, n_iter, rw, reg, normalized, seed, fb=False, varia
     nr, ncol = a.shape
     params = {'n_components': nc, 'alpha': alpha, 'n_iter': n_iter, 'random_walk': rw, 'regularization': reg,
               'normalized': normalized, 'random_state': seed, 'force_bipartite': fb}
-    desc = {'estimator': 'RandomProjection', 'matrix': mat_desc(a), 'params': params, 'variant': variant}
-    sig0 = {'entry': 'RandomProjection.fit', 'random_walk': rw, 'normalized': normalized}
-    est = RandomProjection(nc, alpha=alpha, n_iter=n_iter, random_walk=rw, regularization=reg, normalized=normalized,
-                           random_state=seed)
+    est, history = reuse_begin(reuse, lambda: RandomProjection(nc, alpha=alpha, n_iter=n_iter, random_walk=rw, regularization=reg,
+                                                               normalized=normalized, random_state=seed))
+    desc = {'estimator': 'RandomProjection', 'matrix': mat_desc(a), 'params': params, 'variant': variant, 'history': history}
+    sig0 = {'entry': 'RandomProjection.fit', 'random_walk': rw, 'normalized': normalized, 'refit': bool(history)}
 
     def f():
         with warnings.catch_warnings():
@@ -937,13 +965,12 @@ def fit_rp(ctx, a, nc, alpha, n_iter, rw, reg, normalized, seed, fb=False, varia
             est.fit(a_in, force_bipartite=fb)
         return 'ok'
     status = run_est(ctx, f)
-    if status is None:
-        return None
+    est = reuse_end(reuse, est, a)
     bip = fb or nr != ncol
     n = nr + ncol if bip else nr
     g = np.linalg.qr(np.random.RandomState(seed).normal(size=(n, nc)))[0]
     gkey = ('RP', a.shape, a.indptr.tobytes(), a.indices.tobytes(), a.data.tobytes(), nc, alpha, n_iter, rw, reg, normalized,
-            seed, fb, repr(variant))
+            seed, fb, repr(variant), repr(history))
     run = 'c09.rp %d %d %s %d %s %s %d %s %s %s %s' % (nr, ncol, enc_mat(dense), a.nnz, enc_bool(fb), enc_f(alpha), n_iter,
                                                       enc_bool(rw), enc_f(reg), enc_bool(normalized), enc_mat(g))
     if status != 'ok':
@@ -966,15 +993,16 @@ def fit_rp(ctx, a, nc, alpha, n_iter, rw, reg, normalized, seed, fb=False, varia
 
 
 # ---------------------------------------------------------------- LouvainEmbedding
-def fit_louvain(ctx, a, which, fb=False):
+def fit_louvain(ctx, a, which, fb=False, reuse=None):
     from sknetwork.embedding import LouvainEmbedding
     patch()
     a = sparse.csr_matrix(a)
     dense = a.toarray().astype(float)
     nr, ncol = a.shape
-    desc = {'estimator': 'LouvainEmbedding', 'matrix': mat_desc(a), 'params': {'isolated_nodes': which, 'force_bipartite': fb}}
-    sig0 = {'entry': 'LouvainEmbedding.fit', 'isolated_nodes': which}
-    est = LouvainEmbedding(isolated_nodes=which)
+    est, history = reuse_begin(reuse, lambda: LouvainEmbedding(isolated_nodes=which))
+    desc = {'estimator': 'LouvainEmbedding', 'matrix': mat_desc(a), 'params': {'isolated_nodes': which, 'force_bipartite': fb},
+            'history': history}
+    sig0 = {'entry': 'LouvainEmbedding.fit', 'isolated_nodes': which, 'refit': bool(history)}
     CAP['louvain'] = None
 
     def f():
@@ -983,10 +1011,9 @@ def fit_louvain(ctx, a, which, fb=False):
             est.fit(a, force_bipartite=fb)
         return 'ok'
     status = run_est(ctx, f)
-    if status is None:
-        return None
+    est = reuse_end(reuse, est, a)
     cap = CAP.get('louvain')
-    gkey = ('LE', a.shape, a.indptr.tobytes(), a.indices.tobytes(), a.data.tobytes(), which, fb)
+    gkey = ('LE', a.shape, a.indptr.tobytes(), a.indices.tobytes(), a.data.tobytes(), which, fb, repr(history))
     if cap is None:
         return Fit([], lambda ok: [])          # Louvain itself refused the input: nothing of C09 ran
     sq = not (fb or nr != ncol)        # `louvain.bipartite` is false: Louvain worked on the matrix as an adjacency
@@ -1276,6 +1303,90 @@ def build_fits(ctx):
     return fits
 
 
+def refit_sequence(ctx, e, p, mats, variant_last=None):
+    """One estimator object (constructor parameters `p`) fitted on `mats` one after the other; every fit is judged like a
+    fit of a fresh estimator (the model and the specification are evaluated with the constructor's parameters)."""
+    reuse = {}
+    out = []
+    for t, a in enumerate(mats):
+        var = variant_last if t == len(mats) - 1 else None
+        if e == 'Spectral':
+            out.append(fit_spectral(ctx, a, p['n_components'], p['decomposition'], p['regularization'], p['normalized'],
+                                    p.get('force_bipartite', False), variant=var, reuse=reuse))
+        elif e in ('GSVD', 'SVD', 'PCA'):
+            rows = p.get('predict_rows') or []
+            rows = [r for r in rows if r == 'wronglen' or max(r if isinstance(r, list) else [r]) < a.shape[0]]
+            out.append(fit_svd(ctx, e, a, p['n_components'], p['regularization'], p['factor_row'], p['factor_col'],
+                               p['factor_singular'], p['normalized'], p.get('solver', 'dense'), rows, variant=var, reuse=reuse))
+        elif e == 'RandomProjection':
+            out.append(fit_rp(ctx, a, p['n_components'], p['alpha'], p['n_iter'], p['random_walk'], p['regularization'],
+                              p['normalized'], p['random_state'], p.get('force_bipartite', False), variant=var, reuse=reuse))
+        elif e == 'LouvainEmbedding':
+            out.append(fit_louvain(ctx, a, p['isolated_nodes'], p.get('force_bipartite', False), reuse=reuse))
+        else:
+            raise ToolFailure('unknown estimator in a refit sequence: %r' % e)
+    return out
+
+
+def refit_fits(ctx):
+    """The refit stream: the same estimator object on two or three graphs of different connectivity, size and shape
+    (connected / disconnected / isolated nodes / rectangular), mostly with the automatic regularisation (-1)."""
+    rng = ctx.rng
+    quick = ctx.quick
+    out = []
+
+    def graph(kind):
+        while True:
+            if kind == 'rect':
+                return random_rect(rng, rng.randint(2, 6), rng.randint(3, 7), 0.5)
+            n = rng.randint(4, 10)
+            es = graphs.structured(rng, kind, n)
+            if es:
+                return sym_weighted(rng, n, es)
+
+    connected = ['path', 'cycle', 'star', 'clique', 'grid']
+    disconnected = ['two_components', 'isolated']
+
+    def sequence(allow_rect=True):
+        kinds = [rng.choice(connected), rng.choice(disconnected)]
+        if rng.random() < 0.5:
+            kinds.reverse()
+        if rng.random() < 0.5:
+            kinds.append(rng.choice(connected + disconnected + (['rect'] if allow_rect else [])))
+        elif allow_rect and rng.random() < 0.3:
+            kinds.insert(rng.randrange(2), 'rect')
+        return [graph(k) for k in kinds]
+
+    for _ in range(14 if quick else 120):
+        p = {'n_components': rng.choice([1, 2]), 'decomposition': rng.choice(['rw', 'laplacian']),
+             'regularization': rng.choice([-1, -1, -0.5, 0.5]), 'normalized': rng.random() < 0.5}
+        fs_ = refit_sequence(ctx, 'Spectral', p, sequence())
+        out += fs_
+        ctx.count('fit:refit-spectral', len([f for f in fs_ if f is not None]))
+    for _ in range(14 if quick else 120):
+        p = {'n_components': 2, 'alpha': rng.choice([0.5, 1.]), 'n_iter': rng.choice([1, 3]), 'random_walk': rng.random() < 0.5,
+             'regularization': rng.choice([-1, -1, -0.5, 0.5]), 'normalized': rng.random() < 0.5,
+             'random_state': rng.randrange(1000)}
+        fs_ = refit_sequence(ctx, 'RandomProjection', p, sequence())
+        out += fs_
+        ctx.count('fit:refit-rp', len([f for f in fs_ if f is not None]))
+    for _ in range(14 if quick else 120):
+        kind = rng.choice(['GSVD', 'GSVD', 'SVD', 'PCA'])
+        fr, fc = rng.choice([(0.5, 0.5), (1., 0.), (0.25, 0.75)])
+        p = {'n_components': rng.choice([1, 2]), 'regularization': rng.choice([None, 0.5, 2]), 'factor_row': fr, 'factor_col': fc,
+             'factor_singular': rng.choice([0., 0.5]), 'normalized': rng.random() < 0.5,
+             'solver': rng.choice(['dense', 'lanczos', 'string']), 'predict_rows': [0, [0, 1]]}
+        fs_ = refit_sequence(ctx, kind, p, sequence())
+        out += fs_
+        ctx.count('fit:refit-' + kind, len([f for f in fs_ if f is not None]))
+    for _ in range(8 if quick else 60):
+        p = {'isolated_nodes': rng.choice(['remove', 'merge', 'keep'])}
+        fs_ = refit_sequence(ctx, 'LouvainEmbedding', p, sequence())
+        out += fs_
+        ctx.count('fit:refit-louvain', len([f for f in fs_ if f is not None]))
+    return out
+
+
 def corpus_fits(ctx):
     import json
     import os
@@ -1298,6 +1409,12 @@ def fits_of_desc(ctx, d):
     # `matrix` is the canonical form of what was handed in; the container / dtype variant is replayed on top of it
     # (a replayed `dup` splits again an entry of the already summed matrix: same denotation)
     var = d.get('variant')
+    if d.get('history'):
+        # a fit of an estimator that had been fitted before: the whole sequence is replayed on one object
+        pp = dict(p)
+        if d.get('predict') is not None and 'predict_rows' not in pp:
+            pp['predict_rows'] = [d['predict']]
+        return refit_sequence(ctx, e, pp, [mat_from_desc(h) for h in d['history']] + [a], variant_last=var)
     if e == 'operators':
         return [fit_operators(ctx, a, p['regularization'])]
     if e == 'Spectral':
@@ -1319,7 +1436,7 @@ def fits_of_desc(ctx, d):
 
 def run(ctx):
     patch()
-    run_fits(ctx, corpus_fits(ctx) + build_fits(ctx))
+    run_fits(ctx, corpus_fits(ctx) + build_fits(ctx) + refit_fits(ctx))
     ctx.extra['solver_exceptions_counted_only'] = getattr(ctx, '_c09_solver_lost', 0)
     if ctx.evaluations < EVALUATION_FLOOR[ctx.tier]:
         raise ToolFailure('only %d evaluations (floor %d): the run does not check the property'
@@ -1373,4 +1490,4 @@ def replay(ctx, payload):
         import random
         ctx.seed = payload.get('seed', ctx.seed)
         ctx.rng = random.Random(ctx.seed * 1000003 + 9)
-        run_fits(ctx, build_fits(ctx))
+        run_fits(ctx, build_fits(ctx) + refit_fits(ctx))
